@@ -84,6 +84,11 @@ EXTREME = [
     "min sum(i in 9223372036854775806..9223372036854775807) { x_i }\ns.t.\n    1 >= 1\ndefine\n    x_i as Boolean for i in 9223372036854775806..9223372036854775807",
     "min a[9223372036854775807 + 0]\ns.t.\n    1 >= 1\nwhere\n    let a = [1, 2]",
     "min len(a) - 9223372036854775807 - 9223372036854775807\ns.t.\n    1 >= 1\nwhere\n    let a = [1, 2]",
+    # nested iterations whose ranges are small one by one and huge together
+    "min sum(i in 0..1000, j in 0..1000, k in 0..1000) { 1 }\ns.t.\n    1 >= 1",
+    "min 1\ns.t.\n    x_i_j >= 0 for i in 0..100000, j in 0..100000\ndefine\n    x_i_j as Boolean for i in 0..2, j in 0..2",
+    "min 1\ns.t.\n    1 >= 1\ndefine\n    x_i_j_k as Boolean for i in 0..1000, j in 0..1000, k in 0..1000",
+    "min sum(i in 0..999999) { sum(j in 0..999999) { 1 } }\ns.t.\n    1 >= 1",
 ]
 
 
